@@ -37,6 +37,7 @@ let () =
         let r = svd_residual n k m u s v in
         if Float.is_nan r || not (sorted_desc_nonneg n s) then maxres := infinity else if r > !maxres then maxres := r;
         ((u, s), v) in
+      let inverse_of k m = gj_inverse n k m in   (* not used by the SVD path *)
       let st = ref (p2p_new n dn) in
       let outs = ref [] in
       let stop = ref false in
@@ -59,8 +60,8 @@ let () =
               st := p2p_set_preconditioner n dn s !st;
               p2p_precondition n s src, p2p_precondition n s tgt
             end in
-          let r = if mode = "a" then p2p_find_aligned n svd_of nan svd_fixed dn psn src tgt nrm !st
-            else p2p_find_corr n svd_of nan svd_fixed dn psn src tgt nrm corr !st in
+          let r = if mode = "a" then p2p_find_aligned n inverse_of svd_of nan svd_fixed dn psn src tgt nrm !st
+            else p2p_find_corr n inverse_of svd_of nan svd_fixed dn psn src tgt nrm corr !st in
           match r with
           | None -> outs := "undef" :: !outs; stop := true
           | Some (st', h) ->
